@@ -36,6 +36,42 @@ func c15(r *Report) {
 	r.Decline("content-encoding handling, large bodies, that the snapshot equals the original beyond its termination (C15.R5)")
 
 	r.Guard("C15.R1", "whoever consumes a message body puts the same bytes back", func() {
+		// any other way of draining a message body is not an accepted idiom
+		for _, f := range w.Funcs(loggerPkgs...) {
+			for _, ci := range calls(f) {
+				c, isCall := ci.(*ssa.Call)
+				if !isCall {
+					continue
+				}
+				switch calleeName(c) {
+				case "io/ioutil.ReadAll", "io.ReadAll", "io.Copy", "(io.Closer).Close":
+					continue
+				}
+				var ops []ssa.Value
+				ops = append(ops, c.Call.Args...)
+				if c.Call.IsInvoke() {
+					if c.Call.Method.Name() == "Close" {
+						continue
+					}
+					ops = append(ops, c.Call.Value)
+				}
+				for _, a := range ops {
+					if _, isRd := a.Type().Underlying().(*types.Interface); !isRd {
+						continue
+					}
+					direct := false
+					for v := range w.backSlice(a, flowOpt{}) {
+						if msgFieldAddr(v, "Body") != nil {
+							direct = true
+						}
+					}
+					if direct && fnName(f) != "(*M/marbl.bodyLogger).Read" {
+						r.Sites++
+						r.Fail("flow", fmt.Sprintf("%s: message body handed to %s", fnName(f), nameOrDyn(c)), "the message body is drained by something other than ReadAll (whose fresh result is re-attached): the bytes put back are not provably the bytes read, or are shared scratch storage", nil, c.Pos())
+					}
+				}
+			}
+		}
 		for _, f := range w.Funcs(loggerPkgs...) {
 			for _, c := range plainCalls(f, "io/ioutil.ReadAll", "io.ReadAll", "io.Copy") {
 				// source derives from a message's Body field?
